@@ -2454,6 +2454,101 @@ pub mod verif_hooks_queue {
     (answers, pending)
   }
 
+  fn texts_of(parser: &SourceParser, r: samlang_ast::source::CommentReference) -> Vec<String> {
+    match parser.comments_store.get(r) {
+      CommentsNode::NoComment => Vec::new(),
+      CommentsNode::Comments(cs) => {
+        cs.iter().map(|c| c.text.as_str(&*parser.heap).to_string()).collect()
+      }
+    }
+  }
+
+  /// Comment skeleton of an expression: `leaf <cs>` | `post <cs> <object/callee>` |
+  /// `bin <cs> <e1> <operator cs> <e2>`; `<cs>` = comma separated texts or `-`.
+  fn skeleton(parser: &SourceParser, e: &samlang_ast::source::expr::E<()>, out: &mut Vec<String>) {
+    use samlang_ast::source::expr::E;
+    let show = |parser: &SourceParser, r| {
+      let v = texts_of(parser, r);
+      if v.is_empty() { "-".to_string() } else { v.join(",") }
+    };
+    match e {
+      E::Binary(b) => {
+        out.push("bin".to_string());
+        out.push(show(parser, b.common.associated_comments));
+        skeleton(parser, &b.e1, out);
+        out.push(show(parser, b.operator_preceding_comments));
+        skeleton(parser, &b.e2, out);
+      }
+      E::FieldAccess(x) => {
+        out.push("post".to_string());
+        out.push(show(parser, x.common.associated_comments));
+        skeleton(parser, &x.object, out);
+      }
+      E::MethodAccess(x) => {
+        out.push("post".to_string());
+        out.push(show(parser, x.common.associated_comments));
+        skeleton(parser, &x.object, out);
+      }
+      E::Call(x) => {
+        out.push("post".to_string());
+        out.push(show(parser, x.common.associated_comments));
+        skeleton(parser, &x.callee, out);
+      }
+      other => {
+        out.push("leaf".to_string());
+        out.push(show(parser, other.common().associated_comments));
+      }
+    }
+  }
+
+  fn block_comments(heap: &mut Heap, v: &[String]) -> Vec<Comment> {
+    v.iter()
+      .map(|s| Comment { kind: CommentKind::BLOCK, text: heap.alloc_string(s.clone()) })
+      .collect()
+  }
+
+  /// Parses `text` as an expression twice: plainly, and through
+  /// `parse_expression_with_additional_preceding_comments(extra)`; returns both comment skeletons.
+  pub fn attach_trace(text: &str, extra: &[String]) -> (String, String) {
+    let run = |extra: Option<&[String]>| -> String {
+      let mut heap = Heap::new();
+      let mut error_set = ErrorSet::new();
+      let mr = ModuleReference::DUMMY;
+      let extra_comments = extra.map(|e| block_comments(&mut heap, e));
+      let mut parser =
+        SourceParser::new(TokenProducer::new(text, mr), &mut heap, &mut error_set, mr, HashSet::new());
+      let e = match extra_comments {
+        None => super::expression_parser::parse_expression(&mut parser),
+        Some(cs) => {
+          super::expression_parser::parse_expression_with_additional_preceding_comments(&mut parser, cs)
+        }
+      };
+      let mut out = Vec::new();
+      skeleton(&parser, &e, &mut out);
+      out.join(" ")
+    };
+    (run(None), run(Some(extra)))
+  }
+
+  /// Parses `text` (a parenthesised expression or anything else) plainly and returns the skeleton
+  /// of what `keep_parenthesis_comments(expr, start, stop)` makes of it.
+  pub fn paren_trace(text: &str, start: &[String], stop: &[String]) -> (String, String) {
+    let mut heap = Heap::new();
+    let mut error_set = ErrorSet::new();
+    let mr = ModuleReference::DUMMY;
+    let start_comments = block_comments(&mut heap, start);
+    let stop_comments = block_comments(&mut heap, stop);
+    let mut parser =
+      SourceParser::new(TokenProducer::new(text, mr), &mut heap, &mut error_set, mr, HashSet::new());
+    let e = super::expression_parser::parse_expression(&mut parser);
+    let mut before = Vec::new();
+    skeleton(&parser, &e, &mut before);
+    let e = super::utils::keep_parenthesis_comments(&mut parser, e, start_comments, stop_comments);
+    let mut after = Vec::new();
+    skeleton(&parser, &e, &mut after);
+    (before.join(" "), after.join(" "))
+  }
+
   /// Builds a comment store from `groups` (one reference per non-empty group, like
   /// `create_comment_reference`), then calls
   /// `mod_associated_comments_with_additional_preceding_comments(store, refs[target], extra)` and
